@@ -3,5 +3,5 @@ P('C10', shards=16, fuzz=[('FuzzArgv', 60)],
   text='Argument vectors generated from a token grammar (all four flag spellings, bool flags, repeats, flag-looking values, --, near-misses such as - --- -= -x= --=v, unknown names, missing values, '
        'unparsable values per type, -config with existing/missing/invalid files, arbitrary byte tokens) are parsed by a fresh FlagSet over two struct shapes; Parse must never panic, must fail exactly when '
        'an independent 40-line reference reader rejects the vector, and on success Args(), ShowUsage() and every field value must equal the model. Exploration, not proof.',
-  note='One flag token in twelve is a case variant of a defined name (undefined). A third of the vectors run with CFG_* environment variables set for some flags: a flag on the command line keeps its command-line text, the environment only counts for flags the vector leaves alone. Trusts the reference reader and strconv/time/base64 as the definition of "parsable text"; silent on Args()/field values after an error.',
+  note='Values include quoted texts (as strings: verbatim; as numbers or booleans: errors). One flag token in twelve is a case variant of a defined name (undefined). A third of the vectors run with CFG_* environment variables set for some flags: a flag on the command line keeps its command-line text, the environment only counts for flags the vector leaves alone. Trusts the reference reader and strconv/time/base64 as the definition of "parsable text"; silent on Args()/field values after an error.',
   design='3/C10')
